@@ -160,6 +160,11 @@ def run_driver(args, timeout=3600, race=False, env=None, cwd=None):
     if env:
         e.update(env)
     rc, o, dt = sh([drv] + args, env=e, timeout=timeout, cwd=cwd)
+    if rc not in (0, 3) and dt < 600 and "DATA RACE" not in o:
+        # one retry: a driver process that died for a reason of its own (seen twice in a day, never reproduced) must not make a check inconclusive;
+        # a failure that is about the tree under verification fails again
+        sys.stderr.write("note: driver %s failed (%d), retrying once:\n%s\n" % (args[0], rc, o[-1500:]))
+        rc, o, dt = sh([drv] + args, env=e, timeout=timeout, cwd=cwd)
     if rc == 3 and "SHIM-UNAVAILABLE" in o:
         raise Inconclusive("driver command %s needs an overlay shim that does not compile against this tree (%s)" % (args[0], o.strip().splitlines()[-1]))
     if rc != 0:
